@@ -95,9 +95,12 @@ Proof.
   destruct (inter_shape lo rsz asz) as (Hshape & Hpos_mid & Htop & Hzero).
   fold res_end res_start a_end a_start a_out mid in Hshape, Hpos_mid, Htop, Hzero.
   destruct Hshape as (S1 & S2 & S3 & S4 & S5 & S6).
+  assert (Eao : a_out = (asz - a_start)%nat) by reflexivity.
+  assert (Emd : mid = (a_start - a_end)%nat) by reflexivity.
+  clearbody res_end res_start a_end a_start a_out mid.
   (* phases *)
   rewrite (carry_phase_carW w b Hb lsh a asz a_out Hl Ha).
-  pose proof (car_lowW lsh a a_out ltac:(unfold a_out, asz; lia)) as CL. fold asz V in CL.
+  pose proof (car_lowW lsh a a_out ltac:(unfold asz in *; lia)) as CL. fold asz V in CL.
   rewrite CL. clear CL.
   destruct (zero_range_spec r0 res_start rsz) as [Z1 Z2].
   set (r1 := zero_range r0 res_start rsz) in *.
@@ -106,19 +109,22 @@ Proof.
               ltac:(discriminate) Hc0 S3) as (M1 & M2 & M3).
   destruct (mid_phase w true b lsh a res_start a_start mid (r1, car b V 0 a_out)) as [r2 c2].
   cbn [fst snd] in M1, M2, M3. cbv beta iota.
-  pose proof (car_midW lsh a a_start a_out mid S1 eq_refl S2) as CM. fold V in CM.
+  pose proof (car_midW lsh a a_start a_out mid S1 Eao S2) as CM. fold V in CM.
   rewrite CM in M1. clear CM.
   assert (Hc2 : Z.abs c2 <= 2 ^ (w - 2)) by (rewrite M1; apply car_vin_hrW; auto).
   set (gap := (Z.to_nat (- lo) - rsz)%nat) in *.
+  assert (Egap : gap = (Z.to_nat (- lo) - rsz)%nat) by reflexivity. clearbody gap.
   set (c3 := if lo <? 0 then gap_phase_c w cap b gap c2 else c2).
   assert (Hc3 : c3 = if lo <? 0 then car b zseq c2 gap else c2).
   { unfold c3. destruct (lo <? 0); [|reflexivity]. apply (gap_phase_carW w b Hb); [exact Hc2|].
-    destruct Hcap as [Hcap|Hcap]; [left; exact Hcap|right]. unfold gap, rsz, zn in *. lia. }
+    destruct Hcap as [Hcap|Hcap]; [left; exact Hcap|right]. clear - Hcap Egap. unfold rsz, zn in *. lia. }
+  clear Hcap.
   assert (Hc3b : Z.abs c3 <= 2 ^ (w - 2)).
   { rewrite Hc3. destruct (lo <? 0); [|exact Hc2]. apply car_hrW; auto. apply vboundW_zseq; auto. }
   destruct (top_phase_specW w b Hb true lsh res_end r2 c3 Hl ltac:(discriminate) Hc3b) as [T1 T2].
   cbv beta in T2.
   set (out := fst (top_phase w true b lsh res_end (r2, c3))) in *.
+  clear Hc0 Hc2 Hc3b.
   split; [rewrite T1, M2; exact Z1|].
   intros i Hi. rewrite T2, M2, Z1.
   destruct (Nat.ltb_spec i res_end) as [Htp|Htp].
@@ -139,7 +145,7 @@ Proof.
       destruct (Nat.leb_spec (res_start - mid) i) as [_|]; [|lia].
       destruct (Nat.ltb_spec i rsz) as [_|]; [|unfold rsz in *; lia]. cbn [andb].
       rewrite Z.add_0_l.
-      pose proof (dig_midW lsh a a_start a_out mid (res_start - 1 - i) S1 eq_refl S2 ltac:(lia)) as DM.
+      pose proof (dig_midW lsh a a_start a_out mid (res_start - 1 - i) S1 Eao S2 ltac:(lia)) as DM.
       fold V in DM. rewrite DM. clear DM. specialize (Hpos_mid ltac:(lia)).
       rewrite dgz_nonneg by (unfold zn in *; lia).
       f_equal. unfold zn in *. lia.
@@ -152,3 +158,111 @@ Qed.
 
 End Inter.
 
+
+Section InterValueW.
+Variable w : Z.
+Variable b : Z.
+Hypothesis Hb : 1 <= b <= w - 2.
+Variable cap : nat.
+
+(* the cap is large enough: either it saturates every carry within the headroom, or the gap is below it *)
+Definition gap_cap_ok (off : Z) (rsz : nat) : Prop :=
+  w - 2 <= (zn cap - 1) * b \/ - (off / b) - zn rsz <= zn cap.
+
+Theorem normalize_inter_c_value (off : Z) (a r0 : list Z) :
+  Forall (fun x => Z.abs x <= 2 ^ (w - 2)) a -> gap_cap_ok off (length r0) ->
+  let out := normalize_inter_c w cap b off a r0 in
+  length out = length r0 /\
+  Forall (in_range b) out /\
+  out = normalize_inter_c w cap b off a (zeros (length r0)) /\
+  forall P, zn (length r0) * b + zn (length a) * b + Z.abs off <= P ->
+    let D := tor_abs P (val_scaled P b out - val_scaled (P + off) b a) in
+    D <= 2 ^ (P - zn (length r0) * b) /\
+    (zn (length a) * b - off <= zn (length r0) * b -> D = 0).
+Proof.
+  intros HF Hcap. apply hrlw_of_Forall in HF. cbv zeta.
+  destruct (normalize_inter_c_nth w b Hb cap off a r0 HF Hcap) as [L1 N1].
+  destruct (normalize_inter_c_nth w b Hb cap off a (zeros (length r0)) HF
+              ltac:(rewrite zeros_length; exact Hcap)) as [L2 N2].
+  rewrite zeros_length in L2, N2.
+  split; [exact L1|]. split; [|split].
+  - apply Forall_of_nth. intros i Hi. rewrite N1 by lia. apply dgz_range; lia.
+  - apply list_eq_nth; [lia|]. intros i Hi. rewrite N1, N2 by lia. reflexivity.
+  - intros P HP.
+    pose proof (Z.div_mod off b ltac:(lia)) as Hoff.
+    assert (Hl : 0 <= off mod b < b) by (apply Z.mod_pos_bound; lia).
+    assert (Eo : off / b * b + off mod b = off) by lia.
+    pose proof (window_value b P (off / b) (off mod b) a (normalize_inter_c w cap b off a r0)
+                  ltac:(lia) Hl ltac:(intros i Hi; apply N1; lia)) as W.
+    rewrite Eo, L1 in W. apply W. exact HP.
+Qed.
+
+End InterValueW.
+
+(* ---------- the instances in use ---------- *)
+
+(* the i64 routine (cap 64) at any width w with w - 2 <= 63 b; in particular w = 64 *)
+Theorem normalize_inter_value_w (w b : Z) (off : Z) (a r0 : list Z) : 1 <= b <= w - 2 ->
+  w - 2 <= 63 * b \/ - (off / b) - zn (length r0) <= 64 ->
+  Forall (fun x => Z.abs x <= 2 ^ (w - 2)) a ->
+  let out := normalize_inter w b off a r0 in
+  length out = length r0 /\
+  Forall (in_range b) out /\
+  out = normalize_inter w b off a (zeros (length r0)) /\
+  forall P, zn (length r0) * b + zn (length a) * b + Z.abs off <= P ->
+    let D := tor_abs P (val_scaled P b out - val_scaled (P + off) b a) in
+    D <= 2 ^ (P - zn (length r0) * b) /\
+    (zn (length a) * b - off <= zn (length r0) * b -> D = 0).
+Proof.
+  intros Hb Hcap HF. rewrite !normalize_inter_c_64.
+  apply (normalize_inter_c_value w b Hb 64 off a r0 HF). exact Hcap.
+Qed.
+
+(* the i128 routine of the NTT120 family: width 128, cap 128, every radix 1..126, every offset *)
+Theorem normalize_inter_value_128 (b : Z) (off : Z) (a r0 : list Z) : 1 <= b <= 126 ->
+  Forall (fun x => Z.abs x <= 2 ^ 126) a ->
+  let out := normalize_inter_c 128 128 b off a r0 in
+  length out = length r0 /\
+  Forall (in_range b) out /\
+  out = normalize_inter_c 128 128 b off a (zeros (length r0)) /\
+  forall P, zn (length r0) * b + zn (length a) * b + Z.abs off <= P ->
+    let D := tor_abs P (val_scaled P b out - val_scaled (P + off) b a) in
+    D <= 2 ^ (P - zn (length r0) * b) /\
+    (zn (length a) * b - off <= zn (length r0) * b -> D = 0).
+Proof.
+  intros Hb HF.
+  apply (normalize_inter_c_value 128 b ltac:(lia) 128 off a r0 HF). left. change (zn 128) with 128. lia.
+Qed.
+
+(* the width-64 theorem of Proofs/C08Normalize.v is the instance w = 64 *)
+Corollary normalize_inter_value_64 (b : Z) (off : Z) (a r0 : list Z) : 1 <= b <= 62 ->
+  Forall (fun x => Z.abs x <= 2 ^ 62) a ->
+  let out := normalize_inter 64 b off a r0 in
+  length out = length r0 /\
+  Forall (in_range b) out /\
+  out = normalize_inter 64 b off a (zeros (length r0)) /\
+  forall P, zn (length r0) * b + zn (length a) * b + Z.abs off <= P ->
+    let D := tor_abs P (val_scaled P b out - val_scaled (P + off) b a) in
+    D <= 2 ^ (P - zn (length r0) * b) /\
+    (zn (length a) * b - off <= zn (length r0) * b -> D = 0).
+Proof.
+  intros Hb HF. apply (normalize_inter_value_w 64 b off a r0 ltac:(lia)); [left; lia|exact HF].
+Qed.
+
+(* the dispatcher of the NTT120 family on equal radices *)
+Theorem normalize_big_same_value (b : Z) (off : Z) (a r0 : list Z) : 1 <= b <= 126 ->
+  Forall (fun x => Z.abs x <= 2 ^ 126) a ->
+  exists out, normalize_big 128 b b off a r0 = Some out /\
+  length out = length r0 /\
+  Forall (in_range b) out /\
+  normalize_big 128 b b off a (zeros (length r0)) = Some out /\
+  forall P, zn (length r0) * b + zn (length a) * b + Z.abs off <= P ->
+    let D := tor_abs P (val_scaled P b out - val_scaled (P + off) b a) in
+    D <= 2 ^ (P - zn (length r0) * b) /\
+    (zn (length a) * b - off <= zn (length r0) * b -> D = 0).
+Proof.
+  intros Hb HF. unfold normalize_big. rewrite Z.eqb_refl.
+  destruct (normalize_inter_value_128 b off a r0 Hb HF) as (L & B & I & V).
+  exists (normalize_inter_c 128 128 b off a r0).
+  split; [reflexivity|]. split; [exact L|]. split; [exact B|]. split; [f_equal; symmetry; exact I|exact V].
+Qed.
